@@ -47,7 +47,7 @@ func run(c Case) (v vkit.Verdict) {
 					return
 				}
 				queries++
-				p := geom.Point{X: float64(op.Qx) / 2, Y: float64(op.Qy) / 2}
+				p := geom.Point{X: float64(op.Qx)/2 + op.F[0], Y: float64(op.Qy)/2 + op.F[1]}
 				dists := m.SortedDists(p)
 				stored := rtreekit.Count(m.Live)
 				depth := m.Tree.Depth()
@@ -132,7 +132,7 @@ func TestProp(t *testing.T) {
 	vkit.Main(t, vkit.Spec[Case]{
 		ID: "C12",
 		Rule: "rapid: trees reached by the C11 history generator (insert/duplicate/delete/drain phases; a quarter of the histories insert-only), fan-out 4-8 or 25/50, objects " +
-			"*Bounds/Point/comparable structs on a small integer grid; interleaved queries NearestNeighbor(p) and NearestNeighbors(k,p) with p on the half-integer grid inside, outside " +
+			"*Bounds/Point/comparable structs on a small integer grid or (a third of the histories) at non-integer positions, zero-width and zero-height boxes included, with hot-spot phases of coincident and nested boxes; interleaved queries NearestNeighbor(p) and NearestNeighbors(k,p) with p on the half-integer grid (plus a fractional offset in float histories) inside, outside " +
 			"and on box borders, k in 1..min(12,Size+3). Oracle: own point-box distance; NearestNeighbor returns a stored object at the minimum distance; NearestNeighbors returns k slots, " +
 			"first min(k,Size) non-nil stored objects (multiplicity respected) in non-decreasing distance whose j-th distance equals the j-th smallest over all stored objects, the rest nil. " +
 			"Non-trivial = a k>=2 query on a tree of depth>=2, or a tie at the k-th distance. Distinct by case hash.",
